@@ -44,6 +44,8 @@ func cleanFunc(ln string) string {
 func classifyDeath(prop string, d death) (oracle, class, detail string, ok bool) {
 	st := d.stderr
 	switch {
+	case strings.Contains(st, "verif-watchdog:"):
+		return "hang", prop + "/hang/wall-clock", "the run made no progress for the watchdog period (a loop outside the instrumented statements)", true
 	case strings.Contains(st, "WARNING: DATA RACE"):
 		cls, det, lib := classifyRace(st)
 		if !lib {
